@@ -83,6 +83,7 @@ impl Trace0 {
             ops: vec![],
             sanitizer: if sanitizer.is_empty() { None } else { Some(sanitizer.into()) },
             tier: Some(tier.into()),
+            build: if sanitizer.is_empty() { Some(build_variant().into()) } else { None },
         }
     }
 }
@@ -122,6 +123,14 @@ pub fn heartbeat() {
     if let Some(f) = HEART.get() {
         let n = HEART_N.fetch_add(1, std::sync::atomic::Ordering::Relaxed);
         let _ = f.write_at(&n.to_le_bytes(), 8);
+    }
+}
+
+pub fn build_variant() -> &'static str {
+    if cfg!(debug_assertions) {
+        "checked"
+    } else {
+        "userlike"
     }
 }
 
@@ -260,7 +269,7 @@ impl<'e> Worker<'e> {
     }
 
     fn mk_trace(&self, mode: &str, idx: u64, seed: u64, cfg: &Config, ops: Vec<Op>) -> Trace {
-        Trace { property: self.prop.clone(), violation: None, message: None, verif_seed: self.verif_seed, run_index: idx, run_seed: seed, mode: mode.into(), config: cfg.clone(), ops, sanitizer: None, tier: Some(if self.thorough { "thorough".into() } else { "quick".into() }) }
+        Trace { property: self.prop.clone(), violation: None, message: None, verif_seed: self.verif_seed, run_index: idx, run_seed: seed, mode: mode.into(), config: cfg.clone(), ops, sanitizer: None, tier: Some(if self.thorough { "thorough".into() } else { "quick".into() }), build: Some(build_variant().into()) }
     }
 
     fn note_cfg(&mut self, cfg: &Config) {
@@ -493,6 +502,28 @@ pub fn replay_main(path: &str) -> i32 {
             return 2;
         }
     };
+    // a trace found by the other build variant is replayed by that variant
+    if let Some(b) = &trace.build {
+        if b != build_variant() && trace.sanitizer.is_none() {
+            let other = if b == "userlike" { std::env::var("LRUSIM_ALT_BIN").ok() } else { std::env::var("LRUSIM_MAIN_BIN").ok() };
+            match other.filter(|p| Path::new(p).exists()) {
+                Some(bin) => {
+                    let st = std::process::Command::new(bin).args(["replay", path]).status();
+                    return match st {
+                        Ok(s) => s.code().unwrap_or(139),
+                        Err(e) => {
+                            eprintln!("harness error: cannot run the {} build: {}", b, e);
+                            2
+                        }
+                    };
+                }
+                None => {
+                    eprintln!("harness error: the trace was recorded by the '{}' build, which is not available (run through ./check --replay)", b);
+                    return 2;
+                }
+            }
+        }
+    }
     let env = detect_env();
     let pbit = prop_bit(&trace.property).unwrap_or(0);
     let class = trace.violation.clone().unwrap_or_default();
